@@ -138,20 +138,27 @@ func c17Suppress(c c17Case) string {
 	if len(before.Panics)+len(after.Panics) > 0 {
 		return fmt.Sprintf("panic: %v %v", before.Panics, after.Panics)
 	}
+	return c17CompareSuppress(before.Diags, after.Diags, c.File, c.Line, c.Code)
+}
+
+// c17CompareSuppress: after `// @ignore CODE` was appended to file:line, the
+// diagnostics with that code on that line must be gone and nothing else may
+// differ, except once-per-file codes re-appearing later in the file for the same type.
+func c17CompareSuppress(before, after []engine.Diag, file string, line int, code string) string {
 	key := func(d engine.Diag) string {
 		return fmt.Sprintf("%s:%d:%d %s %s", d.File, d.Line, d.Col, d.Code, firstLine(d.Message))
 	}
 	a, b := map[string]engine.Diag{}, map[string]engine.Diag{}
-	for _, d := range before.Diags {
+	for _, d := range before {
 		a[key(d)] = d
 	}
-	for _, d := range after.Diags {
+	for _, d := range after {
 		b[key(d)] = d
 	}
 	var probs []string
 	removedTypes := map[string]bool{}
 	for k, d := range a {
-		onLine := d.File == c.File && d.Line == c.Line && d.Code == c.Code
+		onLine := d.File == file && d.Line == line && d.Code == code
 		_, still := b[k]
 		switch {
 		case onLine && still:
@@ -168,7 +175,7 @@ func c17Suppress(c c17Case) string {
 			continue
 		}
 		// once-per-file re-reporting: same code, same file, same message (same type), later position
-		ok := (c.Code == "TONL01" || c.Code == "PKGO01") && d.Code == c.Code && d.File == c.File && d.Line > c.Line && removedTypes[firstLine(d.Message)]
+		ok := (code == "TONL01" || code == "PKGO01") && d.Code == code && d.File == file && d.Line > line && removedTypes[firstLine(d.Message)]
 		if !ok {
 			probs = append(probs, "new diagnostic appeared: "+k)
 		}
@@ -460,6 +467,48 @@ func TestC17Corpus(t *testing.T) {
 				}
 				ev.NonTrivial(id, ev.Hash("corpus", pi.ImportPath, path.Base(d.File), fmt.Sprint(d.Line, d.Col), d.Code))
 				ev.Class(id, "corpus diagnostic "+d.Code)
+			}
+			// append-and-rerun on real-world code: for a few diagnostics, `// @ignore CODE` is
+			// appended to the line in the copied file and the package analysed again
+			tried := 0
+			for _, d := range res.Diags {
+				if tried >= scale(1, 3) {
+					break
+				}
+				h := ev.Hash("c17s", fmt.Sprint(seed()), pi.ImportPath, path.Base(d.File), fmt.Sprint(d.Line, d.Col))
+				if h[0]%3 != 0 {
+					continue
+				}
+				ls := strings.Split(content[d.File], "\n")
+				if d.Line < 1 || d.Line > len(ls) || strings.Contains(ls[d.Line-1], "//") || strings.Contains(ls[d.Line-1], "/*") || strings.Contains(ls[d.Line-1], "`") {
+					continue
+				}
+				tried++
+				orig := content[d.File]
+				ls[d.Line-1] += " // @ignore " + d.Code
+				if err := os.WriteFile(d.File, []byte(strings.Join(ls, "\n")), 0o644); err != nil {
+					break
+				}
+				pk2, err := engine.LoadReal(dir, env, nil, false, "./"+cp)
+				ok := err == nil && len(pk2) > 0 && len(pk2[0].Errors) == 0
+				var why string
+				if ok {
+					r2 := engine.AnalyzeReal(pk2, engine.DefaultConfig(), true)
+					if len(r2.Panics)+len(r2.Errors) == 0 {
+						why = c17CompareSuppress(res.Diags, r2.Diags, d.File, d.Line, d.Code)
+					}
+				}
+				os.WriteFile(d.File, []byte(orig), 0o644)
+				if !ok {
+					ev.Class(id, "corpus: appended comment broke the file (a multi-line string or similar; not judged)")
+					continue
+				}
+				ev.Eval(id)
+				ev.Class(id, "corpus append-and-rerun "+d.Code)
+				if why != "" {
+					rec := map[string]interface{}{"package": pi.ImportPath, "seed": seed(), "round": round, "file": path.Base(d.File), "line": d.Line, "code": d.Code, "source": orig}
+					violation(t, id, "c17corpus", "corpus-suppress", len(orig), rec, "annotated copy of %s: appending // @ignore %s to %s:%d: %s", pi.ImportPath, d.Code, path.Base(d.File), d.Line, why)
+				}
 			}
 			ev.ClassN(id, "corpus annotations injected", int64(injected))
 			ev.Class(id, "annotated std package checked")
